@@ -167,10 +167,6 @@ func zzConnect(store EventStore, stateless, jsonResponse bool) *streamableServer
 	return conn.(*streamableServerConn)
 }
 
-func zzCall(id int64, method string) *jsonrpc.Request {
-	return &jsonrpc.Request{ID: jsonrpc2.Int64ID(id), Method: method, Params: vJSON(&PingParams{})}
-}
-
 // ---------------------------------------------------------------- C08: resumption
 
 // The logical stream of one request: the server writes n1 messages while the POST is attached, the exchange
